@@ -1,4 +1,5 @@
 """C16 / C17 — vectoriser plumbing and dataset builders (CrossHair on the real functions)."""
+import os
 import sys
 from datetime import datetime
 from typing import Optional
@@ -100,32 +101,114 @@ def _clone(i, a, b):
     return r
 
 
-def ob_dataset(n: int, r0: int, r1: int, l0: int, l1: int, g: int, a0: int, b0: int, a1: int, b1: int, none_first: bool) -> bool:
+def ob_dataset(n: int, r0: int, r1: int, l0: int, l1: int, g: int, g2: int, a0: int, b0: int, a1: int, b1: int, none_first: bool, two: bool) -> bool:
     """
-    pre: 0 <= n <= 2 and 0 <= r0 < NR and 0 <= r1 < NR and 1 <= l0 <= 3 and 1 <= l1 <= 3 and 0 <= g < NR
+    pre: 0 <= n <= 2 and 0 <= r0 < NR and 0 <= r1 < NR and 1 <= l0 <= 3 and 1 <= l1 <= 3 and 0 <= g < NR and 0 <= g2 < NR
     pre: 0 <= a0 < b0 <= 9 and 0 <= a1 < b1 <= 9
     post: _
     """
+    CT = CO.ctparse_gen.__globals__["CTParse"]
     prods = [(100, 101, "ruleA")[:l0], (102, "ruleB", "ruleC")[:l1]]
-    cands = [CO.ctparse_gen.__globals__["CTParse"](_clone(r0, a0, b0), prods[0], 0.5, "", []),
-             CO.ctparse_gen.__globals__["CTParse"](_clone(r1, a1, b1), prods[1], 0.25, "", [])][:n]
-    stream = ([None] if none_first else []) + cands
-    entry = CO.TimeParseEntry("txt", datetime(2020, 1, 1), _clone(g, 0, 0))
+    ts1, ts2 = datetime(2020, 1, 1), datetime(2021, 6, 1)
+
+    def stream_for(ts):
+        # the scripted parser depends on the reference time: the second entry (same text, other
+        # reference time) sees the two candidates in swapped roles
+        if ts == ts1:
+            cands = [CT(_clone(r0, a0, b0), prods[0], 0.5, "", []), CT(_clone(r1, a1, b1), prods[1], 0.25, "", [])][:n]
+        else:
+            cands = [CT(_clone(r1, a0, b0), prods[0], 0.5, "", []), CT(_clone(r0, a1, b1), prods[1], 0.25, "", [])][:n]
+        return ([None] if none_first else []) + cands
+    entries = [CO.TimeParseEntry("txt", ts1, _clone(g, 0, 0))]
+    if two:
+        entries.append(CO.TimeParseEntry("txt", ts2, _clone(g2, 0, 0)))
     old = CO.ctparse_gen
-    CO.ctparse_gen = lambda *a, **k: iter(stream)
+    CO.ctparse_gen = lambda text, ts, **k: iter(stream_for(ts))
     try:
-        got = list(CO.make_partial_rule_dataset([entry], scorer=None, timeout=0, max_stack_depth=0))
+        got = list(CO.make_partial_rule_dataset(entries, scorer=None, timeout=0, max_stack_depth=0))
     finally:
         CO.ctparse_gen = old
     exp = []
-    for c, ri in zip(cands, (r0, r1)):
-        label = (ri == g)                  # RESOLUTIONS are pairwise different values
-        for i in range(1, len(c.production) + 1):
-            exp.append(([str(p) for p in c.production[:i]], label))
+    for e, gold, order in zip(entries, (g, g2), ((r0, r1), (r1, r0))):
+        for prod, ri in list(zip(prods, order))[:n]:
+            label = (ri == gold)                  # RESOLUTIONS are pairwise different values
+            for i in range(1, len(prod) + 1):
+                exp.append(([str(p) for p in prod[:i]], label))
     return got == exp
 
 
-def lift_dataset(n, r0, r1, l0, l1, g, a0, b0, a1, b1, none_first):
+def lift_dataset(n, r0, r1, l0, l1, g, g2, a0, b0, a1, b1, none_first, two):
     # the builders are public API; the witness is the kernel call itself, shown with the values
     return {"reproduced": True, "witness": {"candidate": repr(_clone(r0, a0, b0)), "gold": repr(_clone(g, 0, 0)),
                                             "equal": _clone(r0, a0, b0) == _clone(g, 0, 0)}}
+
+
+# ------------------------------------------------------------------ pipeline-level differential (C16 / C17)
+import math
+from ctparse.nb_scorer import train_naive_bayes
+
+DOCS = [["a"], ["b"], ["a", "a"], ["a", "b"], ["b", "a"], ["b", "b", "a"]]
+ND = len(DOCS)
+
+
+def _ref_nb(X, y):
+    """reference: Laplace-smoothed multinomial NB over all 1-3-grams, written from the textbook"""
+    grams = [_spec_ngrams(d) for d in X]
+    vocab = sorted({g for gs in grams for g in gs})
+    cnt = {True: {g: 1.0 for g in vocab}, False: {g: 1.0 for g in vocab}}
+    for gs, lab in zip(grams, y):
+        for g in gs:
+            cnt[lab][g] += 1
+    tot = {k: sum(v.values()) for k, v in cnt.items()}
+    npos = sum(1 for v in y if v)
+    prior = {True: math.log(npos / len(y)), False: math.log((len(y) - npos) / len(y))}
+
+    def odds(doc):
+        s = prior[True] - prior[False]
+        for g in _spec_ngrams(doc):
+            if g in cnt[True]:
+                s += math.log(cnt[True][g] / tot[True]) - math.log(cnt[False][g] / tot[False])
+        return s
+    return odds
+
+
+def fit_check(X, y):
+    if all(y) or not any(y):
+        return True, "single-class corpus (outside the claim)"
+    model = train_naive_bayes(X, y)
+    ref = _ref_nb(X, y)
+    for doc in X + [["a", "zz"], []]:
+        p = model.predict_log_proba([doc])[0]
+        if not all(math.isfinite(v) for v in p) or abs(math.exp(p[0]) + math.exp(p[1]) - 1) > 1e-9:
+            return False, "prediction for %r not finite / not normalised: %r" % (doc, p)
+        if abs((p[1] - p[0]) - ref(doc)) > 1e-9:
+            return False, "log-odds of %r: model %.6f, textbook %.6f (corpus %r, labels %r)" % (doc, p[1] - p[0], ref(doc), X, y)
+    # duplicating a positive example never lowers the score of its trace
+    for i, (doc, lab) in enumerate(zip(X, y)):
+        if lab:
+            before = model.predict_log_proba([doc])[0]
+            m2 = train_naive_bayes(X + [doc], y + [True])
+            after = m2.predict_log_proba([doc])[0]
+            if (after[1] - after[0]) < (before[1] - before[0]) - 1e-12:
+                return False, "duplicating the positive example %r lowered its log-odds from %.6f to %.6f (corpus %r, labels %r)" % (doc, before[1] - before[0], after[1] - after[0], X, y)
+    return True, ""
+
+
+def ob_fit(n: int, d0: int, d1: int, d2: int, d3: int, y0: bool, y1: bool, y2: bool, y3: bool) -> bool:
+    """
+    pre: 2 <= n <= NDOCS and 0 <= d0 < ND and 0 <= d1 < ND and 0 <= d2 < ND and 0 <= d3 < ND
+    pre: (n > 3 or (d3 == 0 and not y3)) and (n > 2 or (d2 == 0 and not y2))
+    post: _
+    """
+    with NoTracing():
+        nn = _pick(n, 5)
+        X = [list(DOCS[_pick(d, ND)]) for d in (d0, d1, d2, d3)][:nn]
+        y = [bool(_pick(v, 2)) for v in (y0, y1, y2, y3)][:nn]
+        return fit_check(X, y)[0]
+
+
+def why_fit(n, d0, d1, d2, d3, y0, y1, y2, y3):
+    return fit_check([list(DOCS[d]) for d in (d0, d1, d2, d3)][:n], [bool(v) for v in (y0, y1, y2, y3)][:n])[1]
+
+
+NDOCS = int(os.environ.get("VQ_NDOCS", "3"))
